@@ -1082,11 +1082,24 @@ func oneSegment(caseID string, seed int64, dir string) {
 	entries := make([]*walEntry, n)
 	kinds := map[string]bool{}
 	var off int64
+	var dirty []byte
 	for i := range entries {
 		e := genEntry(g)
 		entries[i] = e
 		kinds[e.Kind] = true
-		b, err := e.entry.Encode(nil)
+		// The WAL encodes into recycled buffers from a pool: the destination
+		// holds whatever the previous user left in it.
+		var dst []byte
+		switch g.Intn(4) {
+		case 1:
+			dst = bytes.Repeat([]byte{0x01}, 1<<16)
+		case 2:
+			dst = bytes.Repeat([]byte{0xff}, 1<<16)
+		case 3:
+			dst = append([]byte(nil), dirty...)
+		}
+		b, err := e.entry.Encode(dst)
+		dirty = append(dirty[:0], b...)
 		if err != nil {
 			r.Violation("C13/wal/encode-error", caseID, "WAL entry failed to encode: "+err.Error(), e)
 			return
